@@ -287,9 +287,11 @@ func safeHelper(e *abi.Entry) (s string, panicked bool) {
 }
 
 type H struct {
-	w    *cv.Writer
-	st   *cv.Stats
-	seen map[string]bool
+	w           *cv.Writer
+	st          *cv.Stats
+	seen        map[string]bool
+	nSampleBack int
+	nSampleFwd  int
 }
 
 var kindNames = []string{"method", "event", "error"}
@@ -359,7 +361,12 @@ func (h *H) addBack(kind int, name string, params, returns []pdesc, origin strin
 			h.st.Distinct++
 		}
 	}
-	h.w.Add(term, backDesc{Kind: "back/" + kindNames[kind], Key: key, Origin: origin, Name: name, Params: params, Returns: returns, Impl: impl})
+	d := backDesc{Kind: "back/" + kindNames[kind], Key: key, Origin: origin, Name: name, Params: params, Returns: returns, Impl: impl}
+	if strings.HasPrefix(origin, "mutated") && h.nSampleBack < 4 && len(params) == 1 && len(params[0].Schema) < 700 {
+		h.nSampleBack++
+		h.st.Samples = append(h.st.Samples, d)
+	}
+	h.w.Add(term, d)
 	return e, cls
 }
 
@@ -513,8 +520,12 @@ func (h *H) addFwd(a abi.ABI, origin string, inQuant bool) []pdesc {
 	sort.Strings(ms)
 	sort.Strings(evs)
 	sort.Strings(ers)
-	h.w.Add(fmt.Sprintf("CFwd %s %d %s %s %s", clist(es), cls, clist(ms), clist(evs), clist(ers)),
-		fwdDesc{Kind: "fwd", Origin: origin, ABI: raw, Impl: impl})
+	fd := fwdDesc{Kind: "fwd", Origin: origin, ABI: raw, Impl: impl}
+	if origin == "valid-abi" && h.nSampleFwd < 2 && len(raw) < 900 {
+		h.nSampleFwd++
+		h.st.Samples = append(h.st.Samples, fd)
+	}
+	h.w.Add(fmt.Sprintf("CFwd %s %d %s %s %s", clist(es), cls, clist(ms), clist(evs), clist(ers)), fd)
 	dk := "f|" + string(raw)
 	if !h.seen[dk] {
 		h.seen[dk] = true
@@ -1113,6 +1124,10 @@ func main() {
 		{"x", `{"oneOf":[{"type":"string"},{"type":"integer"},{"type":"boolean"}],"details":{"type":"uint256"}}`},
 		{"x", `{"oneOf":[{"type":"string"},{"type":"boolean"},{"type":"integer"}],"details":{"type":"uint256"}}`},
 		{"x", `{"oneOf":[{"type":"integer"},{"type":"string"}],"details":{"type":"uint256"}}`},
+		{"x", `{"type":"object","details":{"type":"tuple"},"properties":{"a":{"oneOf":[{"type":"string"},{"type":"integer"},{"type":"boolean"}],"details":{"type":"uint256","index":0}}}}`}, // nested oneOf: the last non-string alternative counts
+		{"x", `{"type":"object","details":{"type":"tuple"},"properties":{"a":{"oneOf":[{"type":"string"},{"type":"boolean"},{"type":"integer"}],"details":{"type":"uint256","index":0}}}}`},
+		{"x", `{"type":"object","details":{"type":"tuple"},"properties":{"a":{"oneOf":[{"type":"integer"},{"type":"string"}],"details":{"type":"uint256","index":0}}}}`},
+		{"x", `{"type":"object","details":{"type":"tuple"},"properties":{"a":{"oneOf":[],"details":{"type":"uint256","index":0}}}}`},
 		{"x", `null`}, {"x", `true`}, {"x", `{}`}, {"x", `[]`}, {"x", `5`}, {"x", `{"type":"string"}`}, {"x", `not json`}, {"x", ``},
 		{"x", `{"type":"string","details":{"type":"uint256"}}`},
 		{"x", `{"type":"string","details":{"type":"uint7"}}`},
